@@ -25,6 +25,7 @@ type Solutions struct {
 	next   <-chan *engine.Env
 	err    error
 	closed bool
+	done   bool
 }
 
 // Close closes the Solutions and terminates the search for other solutions.
@@ -41,7 +42,7 @@ func (s *Solutions) Close() error {
 // Next prepares the next solution for reading with the Scan method. It returns true if it finds another solution,
 // or false if there's no further solutions or if there's an error.
 func (s *Solutions) Next() bool {
-	if s.closed {
+	if s.closed || s.done {
 		return false
 	}
 	simYield(s, "U:send-more")
@@ -50,6 +51,10 @@ func (s *Solutions) Next() bool {
 	var ok bool
 	s.env, ok = <-s.next
 	simYield(s, "U:woke-next")
+	if !ok {
+		// The search has ended. Nobody will receive from s.more anymore, so we must not send to it again.
+		s.done = true
+	}
 	return ok
 }
 
